@@ -8,7 +8,6 @@ from aiohttp.client import ClientSession, ClientTimeout, TCPConnector
 
 from sdc11073 import commlog, observableproperties
 from sdc11073.httpserver.compression import CompressionHandler
-from sdc11073.httpserver.httpreader import mk_chunks
 from sdc11073.namespaces import default_ns_helper as ns_hlp
 from sdc11073.pysoap.soapenvelope import Fault
 
@@ -138,12 +137,15 @@ class SoapClientAsync:
                         headers['Content-Encoding'] = compr
                         break
             if self._chunk_size > 0:
-                headers['transfer-encoding'] = "chunked"
-                xml_request = mk_chunks(xml_request, chunk_size=self._chunk_size)
+                # aiohttp does the chunked framing itself (one chunk per block that the generator yields) and sets the
+                # transfer-encoding header. A body that is already framed would be sent with a Content-Length header
+                # in addition to transfer-encoding, which RFC 7230 (3.3.2) does not allow.
+                data = self._iter_blocks(xml_request, self._chunk_size)
             else:
                 headers['Content-Length'] = str(len(xml_request))
+                data = xml_request
 
-            async with self._http_connection.post(path, data=xml_request, headers=headers) as resp:
+            async with self._http_connection.post(path, data=data, headers=headers) as resp:
                 xml_response = await resp.text()
 
         finally:
@@ -156,6 +158,11 @@ class SoapClientAsync:
             soap_fault = Fault.from_node(message_data.p_msg.msg_node)
             raise HTTPReturnCodeError(resp.status, resp.reason, soap_fault)
         return message_data
+
+    @staticmethod
+    async def _iter_blocks(data: bytes, block_size: int):
+        for i in range(0, len(data), block_size):
+            yield data[i:i + block_size]
 
     def _make_get_headers(self) -> dict[str, str]:
         headers = {
